@@ -76,6 +76,12 @@ class EncPath:
                 dd = st.doms[s]
                 if sx.dom_size(dd) == 1:
                     self.core = "avr8l" if sx.dom_min(dd) == 1 else "std"
+        self.flag_facts = {}
+        for s in self.device_syms:
+            if s[1].startswith("contains(get_device(") and "DisabledOptions::" in s[1]:
+                dd = st.doms[s]
+                if sx.dom_size(dd) == 1:
+                    self.flag_facts[s[1].rsplit("DisabledOptions::", 1)[-1].rstrip(")")] = sx.dom_min(dd)
         # operands
         self.ops = {}
         rx = re.compile(r"^op_args\*\[(\d+)\]")
@@ -539,8 +545,12 @@ def analyse(P):
                 if k not in seen_panic:
                     seen_panic.add(k)
                     out["may_panic"].append({"op": ep.op, "kind": ev[1], "fn": ev[2], "bb": ev[3], "span": ev[4], "cond": ev[5]})
-        if ep.exit == "Ok" and ep.op not in ("Lds", "Sts") and ep.device_syms:
-            out["device_reads"].append({"op": ep.op, "syms": [s[1] for s in ep.device_syms]})
+        if ep.exit == "Ok" and ep.bytes is not None:
+            dep = set()
+            for b in ep.bytes:
+                dep |= {s[1] for s in sx.syms(b) if "get_device" in s[1]}
+            if dep:
+                out["device_reads"].append({"op": ep.op, "syms": sorted(dep)})
     for ep in res["paths"]:
         if ep.exit != "Ok":
             continue
@@ -561,6 +571,9 @@ def analyse(P):
                                                   "len_dom": None, "method": set(), "rel_linear": [], "nbits": 0})
                 g["paths"] += 1
                 g["nbits"] = max(g["nbits"], c.nbits)
+                ff = set(ep.flag_facts.items())
+                g["flag_all"] = ff if "flag_all" not in g else (g["flag_all"] & ff)
+                g["flag_any"] = g.get("flag_any", set()) | ff
                 for f in c.findings:
                     if f not in g["findings"]:
                         g["findings"].append(f)
